@@ -5,7 +5,7 @@ import ast
 
 from ..astq import U, call_name, calls, cmp_norm, const_names, fn_walk, self_attr, stmt_key, walk
 from ..cfg import CFG
-from ..interp import Closure, Obj, Raised, Sym
+from ..interp import Closure, Obj, Raised, Sym, Undecided
 from ..loader import AnalysisError, body_of
 from ..schedmodel import Logger, Ref, SchedInterp
 
@@ -129,7 +129,6 @@ def r06_life(repo, sink):
                     foreign.append(f"{mod.relpath}:{n.lineno} {r}.{m}()")
         sink.check(not foreign, "R06", f"who-may-call:{m}", None, ok=f"no component.{m}() outside the driver",
                    bad=f"component.{m}() called outside the driver: {foreign}")
-    _r06_wrappers(repo, sink)
 
 
 class _FinInterp(SchedInterp):
@@ -258,100 +257,15 @@ def _wrapper_status(f):
 
 
 def r07_status(repo, sink):
-    comp = repo.cls("Composition")
-    cbase = repo.cls("Component")
-    upd = repo.resolve(cbase, "update", "method")
-    ws = _wrapper_status(upd)
-    if ws is None:
-        sink.unknown("R07", "wrapper-table:update", upd, "Component.update: status assignment not in vocabulary")
-        return
-    default, keep, _node = ws
-    sink.note("R07.update_wrapper", {"default": default, "keep": sorted(keep)})
-    # (b) statuses hooks set during _update
-    hook_status = {}
-    for c in repo.subclasses(repo.cls("IComponent"), strict=True):
-        h = c.methods.get("_update")
-        if h is None:
-            continue
-        stack = [h]
-        seen = set()
-        while stack:
-            g = stack.pop()
-            if g.qualname in seen:
-                continue
-            seen.add(g.qualname)
-            for n in fn_walk(g.node):
-                if isinstance(n, ast.Assign) and any(self_attr(t) == "status" for t in n.targets):
-                    for s in const_names(n.value):
-                        hook_status.setdefault(s, []).append(f"{g.qualname}")
-                if isinstance(n, ast.Call) and isinstance(n.func, ast.Attribute) and self_attr(n.func):
-                    cal = repo.resolve(c, self_attr(n.func), "method")
-                    if cal is not None and cal.cls is not None and cal.cls.name not in ("Component", "TimeComponent"):
-                        stack.append(cal)
-    sink.note("R07.statuses_set_in__update", hook_status)
-    # (c) what the driver branches on / accepts after update
-    run = repo.resolve(comp, "run")
-    step = repo.resolve(comp, "_update_recursive")
-    fin = repo.resolve(comp, "_finalize_components")
-    branched = set()
-    for f in (run, step):
-        for n in fn_walk(f.node):
-            if isinstance(n, ast.Compare) and "status" in U(n.left):
-                branched |= const_names(n)
-    ur = [c for c in calls(run.node, "_update_recursive")]
-    st = ur[0]
-    while not isinstance(st, ast.stmt):
-        st = st._parent
-    var = st.targets[0].id if isinstance(st, ast.Assign) else None
-    acc = [c for c in _check_status_calls(run.node) if c.args and U(c.args[0]) == var]
-    accepted = _listed(acc[0]) if acc else set()
-    prefin = set()
-    cfgf = CFG(fin.node)
-    cf = _comp_calls(fin.node, "finalize")
-    for c in _check_status_calls(fin.node):
-        if cf and cfgf.dominates(cfgf.node_of(c), cfgf.node_of(cf[0])) and cfgf.node_of(c) is not cfgf.node_of(cf[0]) and "FINALIZED" not in _listed(c):
-            prefin = _listed(c)
-    sink.note("R07.driver", {"branches_on": sorted(branched), "accepted_after_update": sorted(accepted), "accepted_before_finalize": sorted(prefin)})
-    if not hook_status:
-        sink.floor("R07", "hooks setting a status in _update", 0, 1)
-    for s, where in sorted(hook_status.items()):
-        if s in ("FAILED",):
-            continue
-        if s in branched:
-            sink.check(s in keep, "R07", f"S1:keep:{s}", upd,
-                       ok=f"Component.update keeps {s} set by {where[0]}",
-                       bad=f"{where[0]} sets {s} in _update and the driver branches on it, but Component.update "
-                           f"overwrites it with {default} (keeps only {sorted(keep)}): the component is updated again after it finished")
-            sink.check(s in accepted, "R07", f"S2:accepted:{s}", run,
-                       ok=f"{s} is accepted after update", bad=f"a component that reports {s} from update() is rejected by "
-                       f"_check_status (accepts {sorted(accepted)})")
-        sink.check(s in prefin, "R07", f"S4:prefinalize:{s}", fin, ok=f"{s} accepted before finalize",
-                   bad=f"{s} (set by {where[0]}) is not accepted before finalize")
-    sink.check(default in accepted, "R07", "S3:default-accepted", run, ok=f"wrapper default {default} accepted after update",
-               bad=f"wrapper default {default} is not accepted after update")
-    vwrap = _wrapper_status(repo.resolve(cbase, "validate", "method"))
-    if vwrap:
-        sink.check(vwrap[0] in prefin and vwrap[0] in accepted, "R07", "S4:never-updated", fin,
-                   ok=f"{vwrap[0]} (never updated / first update) accepted", bad=f"{vwrap[0]} not accepted after first update / before finalize")
-    # S5: a FINISHED component is never selected while others still run
-    if "FINISHED" in hook_status:
-        loops = [n for n in fn_walk(run.node) if isinstance(n, ast.While)]
-        loop = loops[0]
-        sel_filter = False
-        arg = ur[0].args[0] if ur[0].args else None
-        names = {arg.id} if isinstance(arg, ast.Name) else set()
-        for _ in range(4):
-            for n in walk(loop):
-                if isinstance(n, ast.Assign) and any(isinstance(t, ast.Name) and t.id in names for t in n.targets):
-                    if "FINISHED" in const_names(n.value):
-                        sel_filter = True
-                    names |= {x.id for x in ast.walk(n.value) if isinstance(x, ast.Name)}
-        # or: the step function tolerates a finished start component
-        step_ok = _step_tolerates_finished(repo, step)
-        sink.check(sel_filter or step_ok, "R07", "S5:finished-not-selected", run,
-                   ok="finished components are excluded from the least-time selection",
-                   bad="the least-time selection ranges over FINISHED components too: a finished component that "
-                       "stays behind is selected again and _update_recursive raises FinamTimeError on it")
+    """Status protocol between the components' life-cycle wrappers and the driver, decided by
+    abstract runs (rules/lifetrace.py): the wrappers' decision tables and the scenarios in which
+    a component finishes itself."""
+    from . import lifetrace
+    for fn in (lifetrace.r07w_wrappers, lifetrace.r07w_connect, lifetrace.r07t_finishing):
+        try:
+            fn(repo, sink)
+        except (AnalysisError, Undecided) as exc:
+            sink.unknown("R07", f"analysis:{fn.__name__}", None, f"outside the rule's vocabulary: {exc}")
 
 
 def _step_tolerates_finished(repo, step):
